@@ -105,6 +105,11 @@ def gen_program(rng):
     for i in range(31):
         if not any(l.startswith("l%d:" % i) for l in L):
             L.append("l%d:" % i)
+    if rng.chance(0.12):
+        # several hundred nameless temporary labels: their internal names carry a running number
+        jmp = {"z80": "jp", "8051": "ljmp", "6502": "jmp", "6809": "jmp"}[cpu]
+        n = rng.choice([255, 256, 257, 300])
+        L += ["+\t%s %d" % (db, i & 255) for i in range(n)] + ["\t%s +" % jmp, "\t%s ++" % jmp, "\t%s -" % jmp, "+\t%s 1" % db, "+\t%s 2" % db]
     if rng.chance(0.3):
         # character constants kept in symbols and used as strings later: their type must not depend on who looks at them
         pos = rng.randint(5, len(L))
